@@ -5,6 +5,7 @@ import (
 	"fmt"
 	"os"
 	"path/filepath"
+	"strings"
 )
 
 // C03 — crash recovery exposes a prefix of the acknowledged history.
@@ -64,14 +65,23 @@ func judgeCrash(prop string, cfg Cfg, keys []string, ops []Op, from int, run *cr
 		if !seen[h] {
 			seen[h] = true
 			res.States = append(res.States, p.Snap.hash())
-			r := recoverImage(p.Snap, cfg, keys, res)
+			r := recoverImageCont(p.Snap, cfg, keys, res, func(w *World, d *Dump) string {
+				if j := matchState(d, run.States, lo, hi); j >= 0 {
+					return continueAfterRecovery(w, run.States[j])
+				}
+				return ""
+			})
 			var dv *Violation
 			if r.OpenErr != "" {
 				dv = mk("death-open-fails", "death-open-fails:"+firstWord(r.OpenErr), "process death: Open failed: "+r.OpenErr, p, "")
 			} else if j := matchState(r.Dump, run.States, lo, hi); j < 0 {
 				dv = mk("death-not-acknowledged-state", "death-not-acknowledged-state", fmt.Sprintf("process death: recovered %s\nallowed: %s", r.Dump, allowed(run.States, lo, hi)), p, "")
 			} else if r.Second != "" {
-				dv = mk("death-second-open", "death-second-open", "process death: "+r.Second, p, "")
+				clause := "death-second-open"
+				if strings.HasPrefix(r.Second, "continuing after recovery") {
+					clause = "death-continuation"
+				}
+				dv = mk(clause, clause, "process death: "+r.Second, p, "")
 			}
 			if dv != nil {
 				if !isKnown(dv) {
@@ -205,7 +215,7 @@ func init() {
 	register(&Check{
 		Prop:   "C03",
 		Engine: "crash",
-		Rule:   "every workload of length 1..d over the alphabet x every sync strategy: a crash image is taken after EVERY intercepted I/O event of the last operation (shorter workloads cover the earlier ones) and after it returned; each image is recovered with the real Open as it is (process death) and with every admissible cut of every unsynced file tail, singly and in pairs (power loss); the recovered dump must equal S_j for j in the acknowledgement / durability window, and a second Open must agree. states = distinct crash images; non-trivial = workloads whose last operation issued more than one I/O event",
+		Rule:   "every workload of length 1..d over the alphabet x every sync strategy: a crash image is taken after EVERY intercepted I/O event of the last operation (shorter workloads cover the earlier ones) and after it returned; each image is recovered with the real Open as it is (process death) and with every admissible cut of every unsynced file tail, singly and in pairs (power loss); the recovered dump must equal S_j for j in the acknowledgement / durability window, a second Open must agree, and (process-death images) the recovered database is driven on through a batch, a delete and two more restarts under the reference-map oracle. states = distinct crash images; non-trivial = workloads whose last operation issued more than one I/O event",
 		Assumptions: []string{
 			"Standard I/O; a write call is atomic under process death; power loss cuts unsynced tails (no block reordering inside a tail, directory operations atomic and durable in issue order)",
 			"crash instants are the boundaries of intercepted calls",
